@@ -499,6 +499,58 @@ func (ec *evalCtx) specCall(call *ast.CallExpr) Value {
 			panic(unsupported("underlying: not a runtime.Buffer"))
 		}
 		return sv.F["Underlying"]
+	case "chantag", "chancap":
+		// ghost attributes of a channel: the tag every message on it carries (bound once, by an init clause, while
+		// the channel is fresh) and its capacity
+		need(1)
+		return App(map[string]string{"chantag": "chan.tag", "chancap": "chan.cap"}[name], SInt, scalar(arg(0)))
+	case "freshchan":
+		need(1)
+		if c, ok := arg(0).(*Term); ok && c.Op == "var" {
+			if f, ok := ec.st.ghost["chanfresh:"+c.Name].(*Term); ok {
+				return f
+			}
+		}
+		return False
+	case "keyof":
+		// the map-key encoding of a comparable value, with its inverse functions (so that equal keys mean equal fields)
+		need(1)
+		v := arg(0)
+		k := keyTerm(v)
+		if sv, ok := v.(*StructV); ok {
+			for i, n := range sv.Names {
+				f := keyTerm(sv.F[n])
+				ec.st.Assume(Eq(App(k.Name+".inv"+strconv.Itoa(i), f.Sort, k), f))
+			}
+		}
+		return k
+	case "forallkey":
+		// forallkey(k, m, body): body for every key k of the map m
+		need(3)
+		id, ok := call.Args[0].(*ast.Ident)
+		if !ok {
+			panic(unsupported("forallkey: first argument must be an identifier"))
+		}
+		m, ok := arg(1).(*MapV)
+		if !ok {
+			panic(unsupported("forallkey over %T", arg(1)))
+		}
+		k := Var(ec.e().fresher.name(id.Name), m.K)
+		saved, had := ec.scope[id.Name]
+		if ec.scope == nil {
+			ec.scope = map[string]Value{}
+		}
+		ec.scope[id.Name] = k
+		body := ec.evalBool(call.Args[2])
+		if had {
+			ec.scope[id.Name] = saved
+		} else {
+			delete(ec.scope, id.Name)
+		}
+		if ec.pol > 0 {
+			return Implies(Select(m.Dom, k), body)
+		}
+		return Forall([]*Term{k}, Implies(Select(m.Dom, k), body))
 	case "dyntype":
 		need(2)
 		a0 := arg(0)
